@@ -32,13 +32,14 @@ import os
 import time
 from types import SimpleNamespace
 
-from lib import core
+from lib import core, pipeline
 from lib.coqgen import coq_str, coq_list, coq_bool
 
 ID = 'C04'
-COQ_CONE = ['Properties/C04.v']
+COQ_CONE = ['Properties/C04.v', 'Properties/Pipeline.v']
 EXTRACT = 'Extract/C04Extract.v'
 DRIVER = 'ocaml/C04_driver.ml'
+EXTRA_BINARIES = [pipeline.PIPELINE_BINARY]
 ASSUMPTIONS = [
     'option values are booleans (False default, True when set) and required counts are ints: other truthy '
     'values a comment could install (approve=foo) are outside the quantifier',
@@ -627,8 +628,69 @@ def shrink(ctx, c):
     return c, best[0], best[1]
 
 
+REVIEW_CONFIGS = [{'peers': 1, 'leaders': 0, 'need_author': True}, {'peers': 2, 'leaders': 1, 'need_author': False},
+                  {'peers': 1, 'leaders': 1, 'need_author': True}, {'peers': 0, 'leaders': 0, 'need_author': False}]
+
+
+def run_system(ctx, replay_history=None):
+    """System clause: the gate as the REAL evaluation calls it.  Seeded system histories under four review
+    configurations; the control skeleton of every handler against Model/Pipeline.v (no landing step without
+    check_approvals returning: C04_C06_C11_C12_gates_before_landing), and every real call of check_approvals
+    inside _handle_pull_request replayed on the extracted gate and specification with the inputs read from the
+    real job object (settings, options as the real comment handler left them, host approvals / participants /
+    change requests)."""
+    from lib import sysrun
+    results = []
+    if replay_history is not None:
+        m = ctx.extra_models.get('Pipeline')
+        results = sysrun.run(ctx, [0], 0, [], do_corr='pipeline', model_exe=m.exe if m else None,
+                             replay_history=replay_history)
+    else:
+        per = 6 if ctx.quick else 60
+        ctx.rule += pipeline.TIE_RULE % (per * len(REVIEW_CONFIGS)) + (
+            ', under required peers/leaders/author approval (1,0,on) (2,1,off) (1,1,on) (0,0,off); every real '
+            'check_approvals call inside a pull-request evaluation is replayed on the extracted gate and '
+            'specification with the inputs read from the real job')
+        for k, cfg in enumerate(REVIEW_CONFIGS):
+            results += pipeline.tie(ctx, per, offset=700 + 100 * k, cfg_override=cfg)
+    recs = [(r, g) for r in results for g in r.get('gates', []) if g['stage'] == 'check_approvals']
+    cases, keep = [], []
+    for r, g in recs:
+        if 'capture_error' in g['input'] or g['ans'] is None:
+            ctx.count('system_gate:capture_error')
+            continue
+        # the world's users under the names of the statement's universe (admin is the project leader there)
+        ren = {'bert-e': 'robot', 'admin': 'leader', 'author': 'author', 'peer': 'peer1'}
+        c = dict(g['input'])
+        for k in ('robot', 'author'):
+            c[k] = ren.get(c[k], c[k])
+        for k in ('project_leaders', 'participants', 'approvals', 'change_requests'):
+            c[k] = [ren.get(u, u) for u in c[k]]
+        cases.append(c)
+        keep.append((r, g))
+    if not cases:
+        return
+    for (r, g), c, ans in zip(keep, cases, ctx.model.batch([encode(c) for c in cases])):
+        model, spec_bit = ans.split(' ')
+        spec = 'Pass' if spec_bit == '1' else 'ApprovalRequired'
+        out = 'Pass' if g['ans'] == 'K' else g['ans'].split(':', 1)[1]
+        ctx.evaluations += 1
+        ctx.count('system_gate:' + out)
+        if not waived(c):
+            ctx.seen_nontrivial('sys|' + core.canon({k: c[k] for k in c if k != 'sources'}))
+        inp = {'seed': r['seed'], 'history': r.get('history'), 'event': g['event'], 'job_index': g['job_index'],
+               'gate_input': c}
+        if out != model:
+            ctx.mismatch(inp, out, model, 'check_approvals (real job inside _handle_pull_request)')
+        if in_quantifier(c) and out != spec:
+            ctx.violation(inp, spec, out, 'review gate of a real evaluation differs from the specification',
+                          key=core.canon(c))
+
+
 def run(ctx, only_cases=None):
     _run(ctx, only_cases)
+    if only_cases is None:
+        run_system(ctx)
     if only_cases is None and ctx.spec_fail:
         first = next((f for f in ctx.spec_fail if in_quantifier(f['input'])), None)
         res = shrink(ctx, first['input']) if first else None
@@ -734,4 +796,8 @@ def _run(ctx, only_cases=None):
 
 
 def replay(ctx, data):
+    if 'history' in data['input']:
+        _run(ctx, [])
+        run_system(ctx, replay_history=data['input']['history'])
+        return
     run(ctx, [data['input']])
